@@ -79,6 +79,7 @@ META = {
             "table entry",
 }
 
+KEY_UNREADABLE = "error-pickles-but-does-not-unpickle"
 JVM_SHORT = {"JAVA_TOOL_OPTIONS": "-XX:ParallelGCThreads=2 -XX:TieredStopAtLevel=1"}
 JVM_LONG = {"JAVA_TOOL_OPTIONS": "-XX:ParallelGCThreads=4"}
 
@@ -98,11 +99,21 @@ class OddError(Exception):
         self.fn = lambda: payload
 
 
+class TwoArgError(Exception):
+    """Pickles, but the pickle does not load: __init__ needs two arguments, args holds one."""
+
+    def __init__(self, code, detail):
+        super().__init__(f"{code}: {detail}")
+        self.code, self.detail = code, detail
+
+
 def _do(kind, payload, extra):
     if kind == "raise":
         raise ElemError(payload, extra)
     if kind == "unp":
         raise OddError(payload)
+    if kind == "rt":
+        raise TwoArgError(payload, extra)
     return {"payload": payload, "extra": extra, "twice": [payload, payload]}
 
 
@@ -120,6 +131,19 @@ def elem_b(kind, payload, scale=2, *, tag="t"):
 def elem_c(*items, kind="ok"):
     return _do(kind, list(items), len(items))
 '''
+
+
+
+def _viol(ctx: Ctx, what: str, replay, key=None) -> None:
+    """ctx.violation, capped: a broken tree fails thousands of cases, thirty replay files are enough."""
+    if key is not None:
+        seen = ctx.__dict__.setdefault("_keys_reported", set())
+        if key in seen:
+            return                      # one report per named deviation
+        seen.add(key)
+        ctx.violation(what, replay, key=key)
+    elif sum(1 for v in ctx.violations if v["key"] is None) < 30:
+        ctx.violation(what, replay, key=key)
 
 
 def sha(text: str) -> str:
@@ -144,7 +168,7 @@ class Lab:
         except ImportError as e:
             raise MachineryError(f"a seam of C32 is gone: {e}")
         for name in ("write_array_job_scratch_files", "parse_job_result", "parse_job_error",
-                     "get_job_scratch_file", "get_array_scratch_file", "ExceptionNotFoundError"):
+                     "get_job_scratch_file", "get_array_scratch_file", "ExceptionNotFoundError", "ScratchError"):
             if not hasattr(S, name):
                 raise MachineryError(f"redun.executors.scratch.{name} is gone")
         self.S, self.RedunClient, self.get_oneshot_command = S, RedunClient, get_oneshot_command
@@ -291,6 +315,8 @@ class Group:
             if exists:
                 return ["ok", self._src_value(result), 0]
         error, _tb = lab.S.parse_job_error(self.scratch, job)
+        if type(error) is lab.S.ScratchError:
+            return ["scratcherr", 0, 0]
         if isinstance(error, lab.S.ExceptionNotFoundError):
             if self.last_raised[i - 1]:
                 result, exists = lab.S.parse_job_result(self.scratch, job)
@@ -360,7 +386,7 @@ def run_events(ctx: Ctx, g: Group, events: list, model: list | None, source: str
             elif name == "parse":
                 out = g.parse(i)
         except Exception as e:  # noqa
-            ctx.violation(f"{name}({i}) raised {type(e).__name__}: {e} for case {g.case}", rep)
+            _viol(ctx, f"{name}({i}) raised {type(e).__name__}: {e} for case {g.case}", rep)
             return rec
         obs = g.obs()
         rec.append({"a": [name, i], "obs": obs, "out": out})
@@ -368,17 +394,24 @@ def run_events(ctx: Ctx, g: Group, events: list, model: list | None, source: str
         if name == "work":
             touched = [j + 1 for j in range(g.case["n"]) if obs[j] != prev[j] and j + 1 != i]
             if touched:
-                ctx.violation(f"container of element {i} changed the output / error files of element(s) {touched} "
+                _viol(ctx, f"container of element {i} changed the output / error files of element(s) {touched} "
                               f"(case {g.case})", rep)
         if name == "parse":
-            want = ["ok" if g.local[i - 1][0] == "ok" else "err", i,
-                    1 if g.case["beh"][i - 1] == "unp" else 0]
-            if out != want:
-                ctx.violation(f"remote outcome of element {i} is {out} (status, element whose local outcome it "
+            beh = g.case["beh"][i - 1]
+            want = ["ok" if g.local[i - 1][0] == "ok" else "err", i, 1 if beh in ("unp", "rt") else 0]
+            if out != want and beh == "rt" and out == ["scratcherr", 0, 0]:
+                # the named deviation DevUnreadableError of RemoteJob.tla
+                _viol(ctx, f"the task raised {g.local[i - 1][1]!r}; its pickle does not load, oneshot wrote it "
+                           "unchecked, and the executor reports ScratchError('Error could not be parsed from scratch "
+                           "directory...') instead of the task's exception or its Exception(repr(e)) fallback",
+                      rep, key=KEY_UNREADABLE)
+            elif out != want:
+                _viol(ctx, f"remote outcome of element {i} is {out} (status, element whose local outcome it "
                               f"equals, generic), the local call gives {want}: {g.describe(i)} (case {g.case})", rep)
         if model is not None:
             m = model[k]
-            if m["obs"] != obs or (name == "parse" and list(m["out"]) != out):
+            fixed_ok = name == "parse" and g.case["beh"][i - 1] == "rt" and out == ["err", i, 1]
+            if m["obs"] != obs or (name == "parse" and list(m["out"]) != out and not fixed_ok):
                 if not ctx.violations:
                     ctx.note("asbuilt_drift_example", {"case": g.case, "event": a, "model": m, "impl": rec[-1]})
                 return rec + [None]
@@ -397,7 +430,8 @@ def nontrivial_case(c: dict) -> bool:
 def validate(ctx: Ctx, traces: list, what: str):
     f = ctx.tmp(f"remote_traces_{what}.json")
     f.write_text(json.dumps(traces))
-    cfg = ('SPECIFICATION TSpec\nCONSTANTS\n Variant = "asbuilt"\n MaxRuns = 99\nINVARIANT OutcomeOK\n'
+    cfg = ('SPECIFICATION TSpec\nCONSTANTS\n Variant = "asbuilt"\n Fixed = FALSE\n MaxRuns = 99\n'
+           'INVARIANT OutcomeUnlessDev\n'
            'INVARIANT OneOutcomeFile\nPROPERTY TIsolation\nCHECK_DEADLOCK FALSE\n')
     res = run_tlc("seq/RemoteJob_Trace.tla", cfg, ctx.scratch, workers=1, env=dict(JVM_SHORT, TRACE_FILE=str(f)),
                   timeout=900)
@@ -440,15 +474,15 @@ def check_names(ctx: Ctx, cases: list, rng) -> None:
             ctx.count_impl_trace()
             rep = {"kind": "name", "prefix": prefix, "hash": h, "array": c["arr"], "impl": name_}
             if name.split("-") != want_segs:
-                ctx.violation(f"{name_}: job name {name!r} is not prefix-hash[-array] for prefix {prefix!r}", rep)
+                _viol(ctx, f"{name_}: job name {name!r} is not prefix-hash[-array] for prefix {prefix!r}", rep)
             if got_tok != c["hash"]:
                 ctx.require(c["h"] not in ("h1", "h2", "h3") or c["hash"] == c["h"], "NameLaw broken in the model")
                 if c["h"] in ("h1", "h2", "h3"):
-                    ctx.violation(f"{name_}: hash recovered from {name!r} is {got!r}, the job was named for {h!r}", rep)
+                    _viol(ctx, f"{name_}: hash recovered from {name!r} is {got!r}, the job was named for {h!r}", rep)
                 else:
                     ctx.note("name_drift", {"name": name, "model": c["hash"], "impl": got})
             if bool(is_arr(name)) != bool(c["isarr"]):
-                ctx.violation(f"{name_}: is_array_job_name({name!r}) = {is_arr(name)}, array = {bool(c['arr'])}", rep)
+                _viol(ctx, f"{name_}: is_array_job_name({name!r}) = {is_arr(name)}, array = {bool(c['arr'])}", rep)
         if len(c["pre"]) > 1 or c["pre"][0] in ("", "array"):
             ctx.distinct(("name", c["pre"], c["h"], c["arr"]))
 
@@ -557,7 +591,7 @@ def check_reunite(ctx: Ctx, cases: list, lab: Lab, rng, n_submit: int) -> None:
         try:
             table = rl.table(ex, api)
         except Exception as e:  # noqa
-            ctx.violation(f"gather_inflight_jobs raised {type(e).__name__}: {e} for remote jobs {c['R']}", rep)
+            _viol(ctx, f"gather_inflight_jobs raised {type(e).__name__}: {e} for remote jobs {c['R']}", rep)
             continue
         ctx.count_eval()
         ctx.count_impl_trace()
@@ -573,12 +607,12 @@ def check_reunite(ctx: Ctx, cases: list, lab: Lab, rng, n_submit: int) -> None:
             want = child_id(c["dec"][e])
             # the property: whatever the table pairs e with was created for e
             if got != "new" and made_for.get(got) != e:
-                ctx.violation(f"a job with evaluation hash {e} would be reunited with remote job {got}, which was "
+                _viol(ctx, f"a job with evaluation hash {e} would be reunited with remote job {got}, which was "
                               f"created for {made_for.get(got)} (remote jobs {c['R']})", rep)
             elif got != want:
                 ctx.note("reunite_drift", {"case": c, "hash": e, "model": want, "impl": got})
         if "foreign" in table.values() or "done" in table.values():
-            ctx.violation("a job of another prefix / a finished job entered the reunite table", rep)
+            _viol(ctx, "a job of another prefix / a finished job entered the reunite table", rep)
         if any(child_id(d) != "new" for d in c["dec"].values()):
             ctx.distinct(("reunite", c["R"]))
         if ci in submit_idx:
@@ -603,29 +637,30 @@ def _submit_through_executor(ctx: Ctx, rl: ReuniteLab, c: dict, rng, made_for: d
             ex.stop()
     except Exception as e:  # noqa
         ex.stop()
-        ctx.violation(f"executor.submit raised {type(e).__name__}: {e}", {"kind": "reunite", "case": c})
+        _viol(ctx, f"executor.submit raised {type(e).__name__}: {e}", {"kind": "reunite", "case": c})
         return
     ctx.count_impl_trace()
     for remote, jid in pending.items():
         e = jid[len("job-"):]
         if made_for.get(remote) != e:
-            ctx.violation(f"executor.submit reunited the job with evaluation hash {e} with remote job {remote}, "
+            _viol(ctx, f"executor.submit reunited the job with evaluation hash {e} with remote job {remote}, "
                           f"created for {made_for.get(remote)}", {"kind": "reunite", "case": c})
     for e, job in jobs.items():
         want = child_id(c["dec"][e])
         got = next((r for r, jid in pending.items() if jid == job.id), "new")
         if (got == "new") != (job in fresh):
-            ctx.violation(f"job {e} was both reunited and submitted afresh (or neither)", {"kind": "reunite", "case": c})
+            _viol(ctx, f"job {e} was both reunited and submitted afresh (or neither)", {"kind": "reunite", "case": c})
         if got != want:
             ctx.note("reunite_drift", {"case": c, "hash": e, "model": want, "impl": got})
 
 
 # ------------------------------------------------------------------------- TLC configs
 def gen_cfg(max_n: int, max_seg: int, kinds, max_runs: int, variant="asbuilt", emit="EmitCases", view=True, sim=False,
-            invs=("GOutcomeOK", "GOneOutcomeFile", "GNameLaw", "GReunite"), props=("GIsolation",)) -> str:
+            invs=("GOutcomeUnlessDev", "GOneOutcomeFile", "GNameLaw", "GReunite"), props=("GIsolation",),
+            fixed=False) -> str:
     cfg = (f'SPECIFICATION GSpec\nCONSTANTS\n MaxN = {max_n}\n MaxSeg = {max_seg}\n MaxRuns = {max_runs}\n'
            f' Kinds = {{{", ".join(chr(34) + k + chr(34) for k in kinds)}}}\n Variant = "{variant}"\n'
-           f' SimPick = {"TRUE" if sim else "FALSE"}\n')
+           f' SimPick = {"TRUE" if sim else "FALSE"}\n Fixed = {"TRUE" if fixed else "FALSE"}\n')
     cfg += "".join(f"INVARIANT {i}\n" for i in invs) + "".join(f"PROPERTY {p}\n" for p in props)
     if emit:
         cfg += f"INVARIANT {emit}\n"
@@ -634,7 +669,23 @@ def gen_cfg(max_n: int, max_seg: int, kinds, max_runs: int, variant="asbuilt", e
     return cfg + "CHECK_DEADLOCK FALSE\n"
 
 
+class Stages:
+    """Wall seconds per stage, kept in the evidence (and printed when VERIF_TIMING is set)."""
+
+    def __init__(self, ctx: Ctx):
+        self.ctx, self.t, self.d = ctx, ctx.elapsed(), {}
+
+    def done(self, name: str) -> None:
+        now = self.ctx.elapsed()
+        self.d[name] = round(now - self.t, 1)
+        self.t = now
+        self.ctx.note("stage_seconds", self.d)
+        if os.environ.get("VERIF_TIMING"):
+            print(f"  [stage {name}: {self.d[name]}s]", flush=True)
+
+
 def run(ctx: Ctx) -> None:
+    st = Stages(ctx)
     ctx.assume("the container is the in-process oneshot entry point with the executors' argv",
                "scratch is a local directory; the AWS Batch API is a fake at the boto client boundary",
                "evaluation hashes / array ids contain no dash; foreign job names do not end in an evaluation hash",
@@ -644,17 +695,18 @@ def run(ctx: Ctx) -> None:
 
     # ---- 1. model checking + enumeration: one exhaustive run (histories hidden by the VIEW) -------
     g = expect_clean(run_tlc("seq/RemoteJob_Gen.tla",
-                             gen_cfg(ctx.pick(3, 4), ctx.pick(2, 3), ("proto", "name", "reunite"), ctx.pick(1, 2)),
+                             gen_cfg(ctx.pick(3, 4), ctx.pick(2, 3), ("proto", "name", "reunite"), 1),
                              ctx.scratch, workers=ctx.pick(8, "auto"), env=JVM_LONG, timeout=2400),
                      "RemoteJob_Gen (protocol, names, reunite)")
     ctx.add_tlc(g)
-    ctx.note("model_config", f"groups of <= {ctx.pick(3, 4)} jobs, {ctx.pick(1, 2)} container(s) per job exhaustively (2 in the "
-             "simulated behaviours), prefixes of <= %d segments over "
+    ctx.note("model_config", f"groups of <= {ctx.pick(3, 4)} jobs, 1 container per job exhaustively (2 for groups of <= 3 "
+             "in the thorough tier and in the simulated behaviours), prefixes of <= %d segments over "
              "{'', p, q, array}, <= 2 in-flight remote jobs" % ctx.pick(2, 3))
     pcases, ncases, rcases = g.recs("CASE"), g.recs("NAME"), g.recs("REUNITE")
     ctx.require(len(pcases) > 500 and len(ncases) > 100 and len(rcases) > 1000,
                 f"too few cases from TLC: {len(pcases)} / {len(ncases)} / {len(rcases)}")
 
+    st.done("tlc_enumeration")
     # ---- 2. spec -> code: every protocol case, canonical schedule ------------------------------
     seen_cases = set()
     for c in pcases:
@@ -668,18 +720,22 @@ def run(ctx: Ctx) -> None:
         ctx.count_eval()
         ctx.count_impl_trace()
         outs = [r["out"] for r in rec if r and r["a"][0] == "parse"]
-        if len(outs) == case["n"] and outs != [list(o) for o in c["out"]]:
-            ctx.violation(f"outcomes {outs} differ from RemoteJob.tla {c['out']} for case {case}",
+        # (an element whose error does not unpickle: the repaired outcome is as good as the as-built one)
+        same = [o == list(m) or (case["beh"][j] == "rt" and o == ["err", j + 1, 1])
+                for j, (o, m) in enumerate(zip(outs, c["out"]))]
+        if len(outs) == case["n"] and not all(same):
+            _viol(ctx, f"outcomes {outs} differ from RemoteJob.tla {c['out']} for case {case}",
                           {"kind": "proto", "case": case, "events": canonical_events(case["n"]), "source": "tlc"})
         if nontrivial_case(case):
             ctx.distinct(("proto", case))
     ctx.note("protocol_cases", len(seen_cases))
     ctx.sample({"source": "tlc-exhaustive case", "case": pcases[len(pcases) // 2]})
 
+    st.done("cases_on_real_protocol")
     # ---- 3. spec -> code: simulated behaviours, event by event ---------------------------------
     nsim = ctx.pick(150, 4000)
     s = run_tlc("seq/RemoteJob_Gen.tla", gen_cfg(ctx.pick(3, 4), 1, ("proto",), 2, emit="Emit", view=False, sim=True,
-                                                  invs=("GOutcomeOK",), props=()),
+                                                  invs=("GOutcomeUnlessDev",), props=()),
                 ctx.scratch, workers=1, simulate=f"num={nsim}", depth=16, seed=ctx.seed + 1, env=JVM_SHORT, timeout=1200)
     ctx.require(s.error is None and not s.violated, f"simulation failed: {s.error} {s.violated}\n{s.out[-1500:]}")
     ctx.add_tlc(s)
@@ -698,17 +754,19 @@ def run(ctx: Ctx) -> None:
             ctx.distinct(("proto", case, events))
     ctx.sample({"source": "tlc-simulate behaviour", "behaviour": behs[0]})
 
+    st.done("simulated_behaviours_replayed")
     # ---- 4. names and reunite ------------------------------------------------------------------
     check_names(ctx, ncases, rng)
     check_reunite(ctx, rcases, lab, rng, ctx.pick(25, 300))
     ctx.sample({"source": "reunite case", "case": rcases[len(rcases) // 3]})
 
+    st.done("names_and_reunite")
     # ---- 5. code -> spec: larger recorded executions ---------------------------------------------
     traces, groups = [], []
     for _ in range(ctx.pick(60, 1500)):
         n = rng.randint(1, 12)
         array = n >= 2 and rng.random() < 0.75
-        beh = [rng.choice(["ok", "ok", "ok", "raise", "unp"]) for _ in range(n)]
+        beh = [rng.choice(["ok", "ok", "ok", "raise", "unp", "rt"]) for _ in range(n)]
         stale = ["none"] * n
         for j in rng.sample(range(n), rng.randint(0, min(3, n))):
             stale[j] = rng.choice(["err", "junk"] + (["out"] if beh[j] == "ok" else []))
@@ -761,19 +819,20 @@ def run(ctx: Ctx) -> None:
         if not acc:
             e = t["ev"][pos - 1]
             if e["a"][0] == "parse":
-                ctx.violation(f"recorded execution rejected by RemoteJob_Trace at event {pos} {e['a']}: parsed outcome "
+                _viol(ctx, f"recorded execution rejected by RemoteJob_Trace at event {pos} {e['a']}: parsed outcome "
                               f"{e['out']} is not the local outcome (case {t['c']})",
                               {"kind": "proto", "case": t["c"], "events": [x["a"] for x in t["ev"]], "source": "recorded"})
             else:
                 drift += 1
                 ctx.note("asbuilt_drift_example", {"case": t["c"], "event": e})
     if tres.violated:
-        ctx.violation(f"invariant {tres.violated} of RemoteJob.tla violated on a recorded execution",
+        _viol(ctx, f"invariant {tres.violated} of RemoteJob.tla violated on a recorded execution",
                       {"kind": "tlc", "out": tres.out[-3000:]})
     ctx.note("asbuilt_drift", drift)
     ctx.sample({"source": "recorded execution", "case": traces[0]["c"], "events": [e["a"] for e in traces[0]["ev"]],
                 "local": [groups[0].describe(i + 1)[:160] for i in range(min(3, traces[0]["c"]["n"]))]})
 
+    st.done("recorded_executions_validated")
     # ---- 6. model-level controls -----------------------------------------------------------------
     ctl = []
     if not ctx.quick:
@@ -785,11 +844,28 @@ def run(ctx: Ctx) -> None:
         expect_violation(r, inv, f"RemoteJob.tla variant {variant}")
         ctx.add_tlc(r)
     if not ctx.quick:
+        # retries: two containers per job, every interleaving, groups of <= 3
+        r = expect_clean(run_tlc("seq/RemoteJob_Gen.tla", gen_cfg(3, 1, ("proto",), 2, emit=None),
+                                 ctx.scratch, workers="auto", env=JVM_LONG, timeout=1500),
+                         "RemoteJob_Gen with retries")
+        ctx.add_tlc(r)
+        # the strict law fails in the as-built model exactly through the named deviation, and holds once it is
+        # repaired
+        r = run_tlc("seq/RemoteJob_Gen.tla", gen_cfg(2, 1, ("proto",), 1, emit=None, invs=("GOutcomeOK",), props=()),
+                    ctx.scratch, workers=2, env=JVM_SHORT, timeout=600)
+        expect_violation(r, "GOutcomeOK", "RemoteJob.tla as built, strict OutcomeOK (DevUnreadableError)")
+        ctx.add_tlc(r)
+        r = expect_clean(run_tlc("seq/RemoteJob_Gen.tla",
+                                 gen_cfg(3, 1, ("proto",), 2, emit=None, invs=("GOutcomeOK", "GOneOutcomeFile"), fixed=True),
+                                 ctx.scratch, workers=4, env=JVM_LONG, timeout=900),
+                         "RemoteJob.tla with DevUnreadableError repaired")
+        ctx.add_tlc(r)
         r = run_tlc("seq/RemoteJob_Gen.tla", gen_cfg(2, 1, ("proto",), 1, variant="index_off_by_one", emit=None,
                                                       invs=(), props=("GIsolation",)),
                     ctx.scratch, workers=2, env=JVM_SHORT, timeout=600)
         expect_violation(r, "GIsolation", "RemoteJob.tla isolation control")
         ctx.add_tlc(r)
+    st.done("tlc_model_controls")
 
 
 def replay(ctx: Ctx, rec: dict) -> None:
@@ -802,13 +878,13 @@ def replay(ctx: Ctx, rec: dict) -> None:
         if len(got) == len(r["events"]):
             verdicts, _ = validate(ctx, [{"c": case, "ev": got}], "replay")
             if not verdicts[1][0] and got[verdicts[1][1] - 1]["a"][0] == "parse":
-                ctx.violation(f"replayed execution rejected at event {verdicts[1][1]}", r)
+                _viol(ctx, f"replayed execution rejected at event {verdicts[1][1]}", r)
     elif r.get("kind") == "name":
         from redun.executors import aws_batch as A
 
         name = A.get_batch_job_name(r["prefix"], r["hash"], array=bool(r["array"]))
         if A.get_hash_from_job_name(name) != r["hash"] or bool(A.is_array_job_name(name)) != bool(r["array"]):
-            ctx.violation(f"hash / array flag not recovered from {name!r}", r)
+            _viol(ctx, f"hash / array flag not recovered from {name!r}", r)
     elif r.get("kind") == "reunite":
         check_reunite(ctx, [r["case"]], Lab(ctx), ctx.rng, 1)
     else:
